@@ -391,6 +391,11 @@ def replay_obj(c, line, extra):
 
 def sort_stream(ctx, hexe, dexe, n_cases, wdir):
     found = False
+    reported = [0]      # shrink the first few failures, report at most 12 (the rest are counted)
+
+    def budget():
+        reported[0] += 1
+        return reported[0]
     cases = [gen_case(ctx.rng, ctx.tier, i) for i in range(n_cases)]
     # batches: keep big cases apart so that they run in parallel with the small ones
     bsz = 25
@@ -412,7 +417,12 @@ def sort_stream(ctx, hexe, dexe, n_cases, wdir):
             # the harness died (abort / sanitizer / assert): find the case
             k = len(o1) // 2
             c = batch[min(k, len(batch) - 1)]
-            small = shrink(hexe, dexe, c, wdir, {"crash"})
+            nrep = budget()
+            found = True
+            if nrep > 12:
+                ctx.hist("sort.suppressed_reports", "crash")
+                continue
+            small = shrink(hexe, dexe, c, wdir, {"crash"}) if nrep <= 3 else c
             _, (rc, oo, ee), _ = run_batch(hexe, dexe, [small], wdir, "rep")
             ctx.violation("the sort aborted / crashed (rc=%s): %s" % (rc1, (ee or e1)[-300:].replace("\n", " | ")),
                           replay_obj(small, op_line(small, small["_path"]), {"stderr": (ee or e1)[-3000:], "rc": str(rc1)}))
@@ -442,7 +452,12 @@ def sort_stream(ctx, hexe, dexe, n_cases, wdir):
             if not probs:
                 continue
             kinds = {k for k, _ in probs}
-            small = shrink(hexe, dexe, c, wdir, kinds)
+            nrep = budget()
+            found = True
+            if nrep > 12:
+                ctx.hist("sort.suppressed_reports", sorted(kinds)[0])
+                continue
+            small = shrink(hexe, dexe, c, wdir, kinds) if nrep <= 3 else c
             sl, (r1, so1, se1), (r2, so2, se2) = run_batch(hexe, dexe, [small], wdir, "rep")
             extra = {"problems": [w for _, w in probs], "impl": so1[:2], "model": so2[:1]}
             if "oracle" in kinds:
